@@ -1708,6 +1708,17 @@ numeric_wrap = functools.partial(wrap_ufunc, args_parser=blank_parser(0))"""), (
     replace_empty, not_implemented, wrap_func, wrap_ufunc, Error, Array
 )""")], expect='C02.nomut')
 
+add('c13-randbetween-guard-before-rounding', 'C13', 'break', [(MATH, """    bottom, top = math.ceil(bottom), math.floor(top)
+    if top < bottom:
+        return Error.errors['#NUM!']
+""", """    if top < bottom:
+        return Error.errors['#NUM!']
+    bottom, top = math.ceil(bottom), math.floor(top)
+""")], expect='C13.randint')
+add('c13-randbetween-real-valued-draw', 'C13', 'break', [(MATH, """    return bottom + int(np.random.rand() * (top - bottom + 1))""", """    return bottom + np.random.rand() * (top - bottom)""")], expect='C13.randint')
+add('c13-benign-randbetween-numpy-randint', 'C13', 'benign', [(MATH, """    return bottom + int(np.random.rand() * (top - bottom + 1))""", """    return int(np.random.randint(bottom, top + 1))""")])
+add('c13-randbetween-half-open-draw', 'C13', 'break', [(MATH, """    return bottom + int(np.random.rand() * (top - bottom + 1))""", """    return int(np.random.randint(bottom, top))""")], expect='C13.randint')
+
 if __name__ == '__main__':
     here = os.path.dirname(os.path.abspath(__file__))
     ids = [v['id'] for v in V]
